@@ -478,7 +478,16 @@ func intrSplit(c *CallCtx, a []Value) []Outcome {
 		var cs []*Term
 		var joined []*Term
 		for i := 0; i < n; i++ {
-			p := FreshVar("split", SStr)
+			// the pieces are a function of (string, separator, count): the same call on the same string
+			// yields the same piece terms (needed when a step is executed twice, C06)
+			memo := fmt.Sprintf("split:%d:%s:%d:%d", s.ID, sep.SV, n, i)
+			var p *Term
+			if g, ok := c.S.W.Ghost[memo]; ok {
+				p = g.(*Term)
+			} else {
+				p = FreshVar("split", SStr)
+				c.S.W.Ghost[memo] = p
+			}
 			ps = append(ps, p)
 			cs = append(cs, Not(Contains(p, sep)))
 			if i > 0 {
